@@ -466,9 +466,11 @@ class ExcelModel:
             for k, d in self.dsp.default_values.items()
             if not isinstance(k, sh.Token)
         }
-        nodes = {
-            k: isinstance(v, str) and v.startswith('=') and '="%s"' % v or v
-            for k, v in nodes.items()
+        is_formula = Cell.parser.is_formula
+        nodes = {  # Escape text that `from_dict` would not read as text.
+            k: '="%s"' % v.replace('"', '""') if isinstance(v, str) and (
+                    is_formula(v) or v.upper() == '#EMPTY'
+            ) else v for k, v in nodes.items()
         }
         nodes = {
             k: '#EMPTY' if v == [[sh.EMPTY]] else v
